@@ -197,15 +197,32 @@ def make_linker_cache(work: Path) -> Path:
         raise Inconclusive(f"could not build the patched linker: {r.stderr[-2000:]}")
     dst = work / "linker-tool"
     copytree(sb.gcache / "tool", dst)
+    osrc = work / "oldlinker-src"
+    write_module(osrc, {"main.go": OLD_LINKER_SRC}, module="example.com/oldlinker")
+    r = sb.go(["build", "-o", str(dst / "old-linker-standin"), "."], cwd=osrc)
+    if r.returncode != 0:
+        raise Inconclusive(f"could not build the old-linker stand-in: {r.stderr[-1000:]}")
     rmtree(work / "lc-sb")
     return dst
 
 
-OLD_LINKER = """#!/bin/sh
-# stand-in for a linker built by another garble/Go version: using it is the violation
-echo "OLD-LINKER-USED" >&2
-echo used >> "$(dirname "$0")/old-linker-used"
-exit 1
+OLD_LINKER_SRC = """package main
+
+// Stand-in for a linker built by another garble/Go version: running it is the violation.
+// It must be a real object file: cmd/go refuses to overwrite a non-empty build output that is not one.
+import (
+	"os"
+	"path/filepath"
+)
+
+func main() {
+	exe, _ := os.Executable()
+	f, _ := os.OpenFile(filepath.Join(filepath.Dir(exe), "old-linker-used"), os.O_CREATE|os.O_APPEND|os.O_WRONLY, 0o666)
+	f.WriteString("used\\n")
+	f.Close()
+	os.Stderr.WriteString("OLD-LINKER-USED\\n")
+	os.Exit(1)
+}
 """
 
 
@@ -222,7 +239,7 @@ def set_linker_state(gcache: Path, cur_tool: Path, stamp: str, binst: str):
     elif binst == "partial":
         link.write_bytes(cur_link[: len(cur_link) // 3])
     elif binst == "old":
-        link.write_text(OLD_LINKER)
+        link.write_bytes((cur_tool / "old-linker-standin").read_bytes())
     if binst != "none":
         link.chmod(0o755)
     if stamp == "cur":
@@ -251,7 +268,7 @@ def observe_linker_state(gcache: Path, cur_tool: Path):
             return "old" if data.startswith(b"go1.0.0") else "partial"
         if len(data) == len(cur_link):
             return "cur"
-        return "old" if data.startswith(b"#!/bin/sh") else "partial"
+        return "old" if data == (cur_tool / "old-linker-standin").read_bytes() else "partial"
     return st(ver, True), st(link, False)
 
 
